@@ -176,6 +176,10 @@ func (fr *Frame) alloc(st *State, t types.Type, pt types.Type, hint string) Val 
 	for i, l := range leaves(t) {
 		st.set(ks[i], fx.nameComp(ks[i], sto(st.get(fx, ks[i]), ref, l.Zero)))
 	}
+	if fx.freshRefs == nil {
+		fx.freshRefs = map[string]bool{}
+	}
+	fx.freshRefs[ref] = true
 	return Val{T: pt, L: []string{ref}}
 }
 
@@ -231,6 +235,34 @@ func (fr *Frame) indexAddr(x *ssa.IndexAddr, st *State, c string) Val {
 	return Val{}
 }
 
+// guardCheck emits the guarded-by obligation for an access to a lock-protected field
+func (fr *Frame) guardCheck(l *Loc, write bool, st *State, c string, pos token.Pos) {
+	if l == nil || l.Elem {
+		return
+	}
+	fx := fr.fx
+	for _, g := range fx.E.S.Guards {
+		if g.Root != l.Root {
+			continue
+		}
+		if !(strings.HasPrefix(l.Path, g.Field) || strings.HasPrefix(g.Field, l.Path)) {
+			continue
+		}
+		if fx.freshRefs[l.Ref] {
+			continue // object under construction: not yet shared
+		}
+		id := "(lockid " + l.Ref + " " + fmt.Sprint(hashStr(g.Root+g.Lock)) + ")"
+		held := sel(st.get(fx, "G|lock"), id)
+		goal := not(eq(held, "0"))
+		what := "read of " + g.Root + g.Field + " without holding " + g.Lock
+		if write {
+			goal = eq(held, "(- 1)")
+			what = "write of " + g.Root + g.Field + " without holding " + g.Lock + " for writing"
+		}
+		fx.obligeNamed(fr.key+"#guarded", "guarded", []string{"lock"}, c, goal, fr.pos(pos), what)
+	}
+}
+
 func (fr *Frame) load(p Val, st *State) Val {
 	fx := fr.fx
 	if p.Loc != nil && p.Loc.Root == "#bseq" {
@@ -274,6 +306,7 @@ func (fr *Frame) store(x *ssa.Store, st *State, c string) {
 		return
 	}
 	if p.Loc != nil {
+		fr.guardCheck(p.Loc, true, st, c, x.Pos())
 		fx.storeLoc(st, p.Loc, v)
 		return
 	}
@@ -331,6 +364,7 @@ func (fr *Frame) unop(x *ssa.UnOp, st *State, c string) Val {
 		if p.Loc == nil {
 			fr.safety("nil", c, not(eq(p.L[0], "0")), x, "nil dereference: *"+x.X.Name())
 		}
+		fr.guardCheck(p.Loc, false, st, c, x.Pos())
 		v := fr.load(p, st)
 		if g, ok := x.X.(*ssa.Global); ok {
 			fr.sentinelFacts(g, v)
